@@ -114,9 +114,9 @@ func c12BreakerPerMethod(t *testing.T, kind string) {
 	var node redis.ClosableNode
 	prefix := "C12:breaker"
 	if kind == "kv" {
-		side, _ = c12KVSide(w, r)
+		side, _ = c12KVSide(w, r, 0)
 		for len(side.servers) != nShards { // all shards in play
-			side, _ = c12KVSide(w, r)
+			side, _ = c12KVSide(w, r, 0)
 		}
 		prefix = "C12:kv:breaker"
 	} else {
